@@ -208,6 +208,18 @@ for ent, fns, what in (
     G(name="srv_" + ent[2:], wip=ent.startswith("h_dnscache"), harness="h_iodined.c", entry=ent, enforce=fns, defs=["H_QMEM=1"], style="legacy", unwind=33, unwindset=["verif_strcmp.0:257", "answer_from_dnscache.0:5", "h_dnscache.0:5", "h_dnscache_miss.0:5"], cbmc_flags=SRV_FLAGS,
       props={"C16": "all", "C05": "safety", "C14": "all"}, min_obl=10, timeout=900, cost=100, mem_gb=24, what=what, **SRV_SHRINK)
 
+# ---- iodined.c: network-facing functions around the dispatcher (C17 dispatch, C10 aux answers, C20 forwarding) ------
+NET = dict(harness="h_iodined.c", style="legacy", unwind=33, cbmc_flags=SRV_FLAGS, min_obl=8, timeout=900, cost=60, mem_gb=24, **SRV_SHRINK)
+NETDEFS = ["H_NET=1", "STUB_HELPERS=1", "STUB_CONTRACTS=1"]
+G(name="srv_tunnel_dns", entry="h_tunnel_dns", defs=NETDEFS, enforce=["tunnel_dns"], props={"C17": "all", "C10": "all", "C20": "all", "C05": "safety"}, **NET,
+  what="server tunnel_dns for an arbitrary decoded query and an arbitrary matcher result: a name outside the tunnel domain reaches no tunnel handler and is forwarded exactly when forwarding is enabled; a name under it is never forwarded; NS queries get the NS answer with the matched offset, A queries for ns./www. the address answer, exactly the tunnel record types reach the dispatcher with the reported data length; at most one handler per datagram")
+G(name="srv_forward_query", entry="h_forward_query", defs=NETDEFS, enforce=["forward_query"], props={"C20": "all", "C05": "safety"}, **NET,
+  what="forward_query for an arbitrary query: re-encoded as a query from the same query object (id, name, type untouched), the asker's address/length/id remembered BEFORE the destination is rewritten, exactly the encoded bytes sent once on the forwarding socket to 127.0.0.1:bind_port; nothing remembered or sent when encoding fails")
+G(name="srv_tunnel_bind", entry="h_tunnel_bind", defs=NETDEFS, enforce=["tunnel_bind"], props={"C20": "all", "C05": "safety", "C12": "all"}, **NET,
+  what="tunnel_bind for an arbitrary reply: the id is read from the reply's own bytes/length, the ring is asked for exactly that id; no match => nothing sent to anybody; match => the same bytes and length relayed once to the remembered address on the socket of its family")
+G(name="srv_ns_a_request", entry="h_ns_a_request", defs=NETDEFS, enforce=["handle_ns_request", "handle_a_request"], props={"C10": "all", "C05": "safety"}, **NET,
+  what="handle_ns_request / handle_a_request: answer built for the received query (NS: with the matched domain part of its own name), glue/address = configured address, placeholder 127.0.0.1 for www, else the address the query was sent to; no address answer without an IPv4 address; exactly the built message sent once to the asker")
+
 LEVELS = {}
 TRUSTED_BASE = ["CBMC 6.11.0 (goto-cc front end, goto-instrument --dfcc contract instrumentation, symex)",
                 "kissat (SAT back end)", "gcc -E (expansion of spec macros inside loop contracts)"]
